@@ -229,12 +229,16 @@ def other_foreign(st, zone_list, locals_):
     tzs.append(('pytz-FixedOffset', pytz.FixedOffset(90)))
     try:
         import zoneinfo
-        for z in ('Europe/London', 'America/New_York', 'Australia/Lord_Howe', 'UTC'):
+        for z in ('Europe/London', 'America/New_York', 'Australia/Lord_Howe', 'Australia/Sydney', 'UTC'):
             tzs.append(('zoneinfo:' + z, zoneinfo.ZoneInfo(z)))
     except Exception:  # noqa
         pass
     for label, tz in tzs:
-        for loc in locals_:
+        # plus instants where two time-zone databases may disagree about the same zone name: beyond the last tabulated transition
+        # (2038 and later, both halves of the year) and before standard time (local mean time with seconds)
+        beyond = [datetime.datetime(y, m, 15, 12, 0, 0) for y in (2038, 2040, 2045, 2099) for m in (1, 7)] + \
+                 [datetime.datetime(1890, 1, 1, 12, 0, 0), datetime.datetime(1850, 6, 1, 0, 0, 0), datetime.datetime(1901, 12, 13, 20, 45, 52)]
+        for loc in list(locals_) + beyond:
             for utc in (loc.replace(tzinfo=UTC),):
                 try:
                     dt = utc.astimezone(tz)
